@@ -606,6 +606,16 @@ def ghost_check(obs):
             r = cur.pop(idx, None)
             if r and kind == 'create' and outcome == 'done' and is_dict:
                 live[(sid, r['app'])] = (rid, r['items'])
+                # first sentence of C17: a create request is acknowledged only once every node of the container has
+                # been created (or adopted / updated) under the service's own session while serving THIS request
+                for p in sorted(r['items']):
+                    if latest.get(p) != (sid, rid):
+                        out.append(('create-acknowledged-without-registration',
+                                    'client %d (session %s) acknowledged the create request of %s although %s %s'
+                                    % (idx, sid, rid, p,
+                                       ('was last registered by %s (session %s)' % (latest[p][1], latest[p][0]))
+                                       if p in latest else 'was not registered by it')))
+                        break
         elif ev[0] == 'expire':
             _t, idx, sid = ev
             cur.pop(idx, None)
